@@ -384,7 +384,7 @@ theorem unrelated_writes_no_rerun {P : Prog} {rank : Nat → Nat} (hacy : Acycli
     have hp1 : (after fuel cap P (pre ++ [.call f a])).poisoned = true := by rw [e1, hstep _ _ hp]; exact hp
     have hp2 : (after fuel cap P (pre ++ .call f a :: ws)).poisoned = true := by rw [e2, hrun ws _ hp1]; exact hp1
     rw [hstep _ _ hp2]; exact ⟨rfl, rfl⟩
-  · obtain ⟨r', hl', htv'⟩ := hnode (by cases h : (after fuel cap P pre).poisoned <;> simp_all)
+  · obtain ⟨⟨r', hl', htv'⟩, _⟩ := hnode (by cases h : (after fuel cap P pre).poisoned <;> simp_all)
     rw [← e1] at hl' htv' hinv1
     have hq1 : QuietN (after fuel cap P (pre ++ [.call f a])) fuel (nodeOf P f a) :=
       quiet_of_verified hacy hinv1 fuel _ r' (hrank _) hl' (Or.inr htv')
